@@ -88,6 +88,7 @@ type target struct {
 	schema *refrlp.Schema
 	fromGo bool                                    // refrlp.FromGo models the Go type
 	post   func(ptr interface{}, in []byte) string // extra value check after an accepted decode
+	dirty  [][]byte                                // schema-derived fillers for the non-initial-state differential (lazy)
 }
 
 var (
@@ -323,6 +324,9 @@ func checkDecode(t *target, in []byte, deep bool) (fs []finding) {
 		} else {
 			noteOutcome(t, reason)
 		}
+		if deep {
+			fs = append(fs, checkDirty(t, in, ptr, err, nil)...)
+		}
 	} else {
 		nAccepted++
 		noteOutcome(t, "accept")
@@ -343,6 +347,9 @@ func checkDecode(t *target, in []byte, deep bool) (fs []finding) {
 			add("C08:noncanonical:"+sigReason(r, t.class), fmt.Sprintf("DecodeBytes(%s, *%s) accepted, value %s re-encodes as %s (reference: %s)", short(in), t.name, render(ptr), short(enc), orOK(reason)))
 		case reason != "":
 			add("C08:accept-invalid:"+sigReason(reason, t.class), fmt.Sprintf("DecodeBytes(%s, *%s) accepted (value %s) but the reference rejects: %s", short(in), t.name, render(ptr), reason))
+		}
+		if eerr == nil {
+			fs = append(fs, checkDirty(t, in, ptr, nil, enc)...)
 		}
 		if reason == "" && eerr == nil {
 			if t.fromGo {
@@ -689,6 +696,7 @@ func checkValue(group string, v interface{}) (fs []finding) {
 	if want != nil && !bytes.Equal(want.Encode(), enc) {
 		add("C08:encode:differs-from-reference:"+class, fmt.Sprintf("EncodeToBytes(%s %s) = %s, reference encoding %s", group, renderV(v), short(enc), short(want.Encode())))
 	}
+	fs = append(fs, checkEncoderReuse(group, class, v, enc)...)
 	var dec reflect.Value
 	switch {
 	case group == "interface{}":
@@ -703,6 +711,12 @@ func checkValue(group string, v interface{}) (fs []finding) {
 	if err != nil {
 		add("C08:reject-valid:"+class+":"+errSlug(err), fmt.Sprintf("EncodeToBytes(%s %s) = %s cannot be decoded back: %v", group, renderV(v), short(enc), err))
 		return
+	}
+	if t := targetByName[group]; t != nil {
+		p := t.mk()
+		if rlp.DecodeBytes(enc, p) == nil {
+			fs = append(fs, checkDirty(t, enc, p, nil, enc)...)
+		}
 	}
 	got := dec.Elem().Interface()
 	same := false
@@ -917,6 +931,7 @@ func run(c *fw.Ctx) {
 		c.NontrivialN(r.nontriv)
 		c.Count("accepted_decodes", nAccepted)
 		c.Count("rejected_decodes", nRejected)
+		c.Count("dirty_destination_decodes", nDirty)
 		keys := make([]string, 0, len(outcomeSeen))
 		for k := range outcomeSeen {
 			keys = append(keys, k)
@@ -1175,7 +1190,9 @@ func main() {
 			"field substitutions (45 canonical/non-canonical field encodings) in the struct encodings of account.Account, eth_tx.Transaction and the tagged test structs, " +
 			"each against the target types, plus limited multi-value Streams (every sequence of 2..3 values from a 9-value alphabet x every input-limit position x 4 read modes " +
 			"over a reader holding more than the limit), long-string elements (b8/b9/ba headers, lengths w+1, 255, 256, 256+n, 512+n, 65536+n for n<=w+1, full payload, 5 fillers) " +
-			"against 10 integer-like element types bare / in []T / struct{A,B T} / struct{A T; Tail []T}, and encode->decode round trips over per-type value alphabets. " +
+			"against 10 integer-like element types bare / in []T / struct{A,B T} / struct{A T; Tail []T}, the non-initial-state differential (every accepted pair is " +
+			"decoded again into destinations pre-filled from two schema-derived dirty values, via DecodeBytes and via one Stream with a reused variable; " +
+			"encoder: Encode/EncodeToReader/EncodeToBytes after another value), and encode->decode round trips over per-type value alphabets. " +
 			"Non-trivial = the input is well-formed canonical RLP (so the outcome depends on the target type) or the decoder accepted it, or a value round trip.",
 		Assumptions: []string{
 			"verif/h/refrlp (strict reference decoder/encoder written from the property statement) is correct",
